@@ -740,6 +740,18 @@ theorem whole_matrix_iterators_refine (m : Matrix α) (h : m.Inv) :
     rw [← cell_toRows t p.1 p.2, ht, cell_transpose_toRows m h p.1 p.2 hp'.1 hp'.2]
   · rw [collectUnchecked_ok m h.1 _ (fun p hp => mem_indexPairs.mp hp), rowMajor_tryGet_eq_data m h, hd]
 
+/-- **`Display`** (`format_view` behind `impl Display for Matrix`, any element renderer — the
+    precision argument only changes that renderer): on a matrix satisfying the invariant it never
+    panics and the text is a function of the list of rows alone: `[ `, the rows with `, ` between
+    cells, two spaces before and a newline between rows, ` ]`. -/
+theorem display_refines (sh : α → String) (m : Matrix α) (h : m.Inv) :
+    m.display sh = .ok (Rows.display sh (abs m)) :=
+  display_spec sh m h
+
+/-- the documented example text of a 2×2 matrix, and a single column -/
+example : (⟨[1, 2, 3, 4], 2, 2⟩ : Matrix Nat).display toString = .ok "[ 1, 2\n  3, 4 ]" ∧
+    Rows.display toString ([[7], [8], [9]] : Rows Nat) = "[ 7\n  8\n  9 ]" := ⟨rfl, rfl⟩
+
 /-! ### hypothesis-free: every matrix a program can hold -/
 
 /-- The matrices a program can hold: built by any public constructor with any arguments, then
